@@ -166,7 +166,10 @@ type world struct {
 	spin       int
 	nowg       bool  // runq constructed without WithWaitGroup
 	cfgOK      bool  // the getters have a defined answer (queue size option not negative)
-	waiting    int32 // the owner's wait for termination has been launched
+	waitingWS  int32 // WaitStop is being waited for
+	waitingWG  int32 // the wait group is being waited for
+	waits      int32 // waits launched
+	runDone    int32 // a call of Run has returned
 	lineFn     line.CallFn
 	mlineFn    mline.CallFn
 	callFn     func(ctx context.Context, arg int) (interface{}, error)
@@ -249,7 +252,6 @@ func newWorld(w *tr.W, src, kind string, nl, qopt int, withIdx, nowg bool) *worl
 		return wd.callee(ctx, idx, id)
 	}
 	wd.callFn = func(ctx context.Context, arg int) (interface{}, error) { return wd.callee(ctx, 0, arg) }
-	wd.base = -1
 	wd.base = wd.pkgGoroutines()
 	return wd
 }
@@ -316,6 +318,13 @@ func clamp(x int) int {
 	return x
 }
 
+// callerSubmit is submit on a goroutine of the harness that is nothing but a caller; its frame is how
+// pkgGoroutines tells such callers from the executor's own goroutines (a callee that calls into its
+// executor uses submit directly: it is a lane goroutine).
+//
+//go:noinline
+func (wd *world) callerSubmit(c *call) tr.E { return wd.submit(c) }
+
 // submit performs the call of caller c on the real executor and classifies the reply.
 func (wd *world) submit(c *call) (rep tr.E) {
 	defer func() {
@@ -378,7 +387,15 @@ func classify(v interface{}, err error) tr.E {
 	return tr.E{"k": "other", "v": 0, "e": false, "msg": err.Error()}
 }
 
+// oops turns a panic of an owner's call (Run, Stop) into an event of its own kind the spec rejects.
+func (wd *world) oops(what string) {
+	if p := recover(); p != nil {
+		wd.log.add(tr.E{"ev": "bad", "what": "panic in " + what + ": " + fmt.Sprint(p), "lane": 0})
+	}
+}
+
 func (wd *world) doRun() {
+	defer wd.oops("Run")
 	wd.log.add(tr.E{"ev": "run"})
 	wd.started = true
 	switch wd.kind {
@@ -391,35 +408,44 @@ func (wd *world) doRun() {
 	case "pchan":
 		wd.pc.Run()
 	}
+	atomic.StoreInt32(&wd.runDone, 1)
 	wd.await()
 }
 
-// await launches the owner's wait for termination (once); `term` is logged when it returns.  A wait
-// group only counts from Run on, so for line / pchan (and the wait group of runq) it starts after
-// Run has returned; MultiLine.WaitStop and RunnerQ.WaitStop may be called at any time (early).
+// await launches the owner's waits for termination, each once and each on a goroutine of its own;
+// `term` is logged when one returns.  The signals are the wait group (line, pchan, runq unless
+// constructed without one) and WaitStop (mline, runq).  A wait group only counts from Run on, so it
+// is waited for after Run has returned; WaitStop may be called at any time (early).
 func (wd *world) await() {
-	if !atomic.CompareAndSwapInt32(&wd.waiting, 0, 1) {
-		return
-	}
-	early := !wd.started
-	go func() {
-		switch wd.kind {
-		case "line", "pchan":
-			wd.wg.Wait()
-		case "mline":
-			if err := wd.ml.WaitStop(context.Background()); err != nil {
-				wd.log.add(tr.E{"ev": "bad", "what": "WaitStop(background): " + err.Error(), "lane": 0})
+	watch := func(flag *int32, sig string, wait func() error) {
+		if !atomic.CompareAndSwapInt32(flag, 0, 1) {
+			return
+		}
+		atomic.AddInt32(&wd.waits, 1)
+		go func() {
+			if err := wait(); err != nil {
+				wd.log.add(tr.E{"ev": "bad", "what": sig + ": " + err.Error(), "lane": 0})
 				return
 			}
-		case "runq":
-			wd.rq.WaitStop()
-			if !wd.nowg && !early {
-				wd.wg.Wait()
-			}
-		}
-		wd.log.add(tr.E{"ev": "term"})
-		atomic.StoreInt32(&wd.term, 1)
-	}()
+			wd.log.add(tr.E{"ev": "term", "sig": sig})
+			atomic.AddInt32(&wd.term, 1)
+		}()
+	}
+	switch wd.kind {
+	case "mline":
+		watch(&wd.waitingWS, "waitstop", func() error { return wd.ml.WaitStop(context.Background()) })
+	case "runq":
+		watch(&wd.waitingWS, "waitstop", func() error { wd.rq.WaitStop(); return nil })
+	}
+	if atomic.LoadInt32(&wd.runDone) == 1 && wd.kind != "mline" && !wd.nowg {
+		watch(&wd.waitingWG, "wg", func() error { wd.wg.Wait(); return nil })
+	}
+}
+
+// terminated: every wait launched so far has returned (and there is one).
+func (wd *world) terminated() bool {
+	n := atomic.LoadInt32(&wd.waits)
+	return n > 0 && atomic.LoadInt32(&wd.term) == n
 }
 
 // cfg logs what the getters report.
@@ -441,6 +467,7 @@ func (wd *world) cfg() {
 // doStop calls Stop on the calling goroutine (a harness worker, a stress goroutine or a callee);
 // `stopr` is logged only when Stop has returned.
 func (wd *world) doStop(by int) {
+	defer wd.oops("Stop")
 	atomic.StoreInt32(&wd.stopIssued, 1)
 	wd.log.add(tr.E{"ev": "stopi", "by": by})
 	switch wd.kind {
@@ -494,27 +521,15 @@ func (wd *world) pkgGoroutines() int {
 	}
 	cnt := 0
 	for _, blk := range strings.Split(string(buf), "\n\n") {
-		if strings.Contains(blk, wd.frag) && !strings.Contains(blk, "main.(*world).submit(") {
+		if strings.Contains(blk, wd.frag) && !strings.Contains(blk, "main.(*world).callerSubmit(") {
 			cnt++
-			if os.Getenv("C14DBG") != "" && wd.base == -1 {
-				fmt.Fprintf(os.Stderr, "BASE %s\n%s\n\n", wd.kind, blk)
-			}
 		}
 	}
 	return cnt
 }
 
 // alive: some goroutine of the executor is left.
-func (wd *world) alive() bool {
-	a := wd.pkgGoroutines()-wd.base > 0
-	if !a && os.Getenv("C14DBG") != "" && wd.x != nil && len(wd.x.W) > 0 && wd.atGate() != 0 {
-		buf := make([]byte, 1<<20)
-		n := runtime.Stack(buf, true)
-		fmt.Fprintf(os.Stderr, "ANOMALY base=%d\n%s\n", wd.base, buf[:n])
-		os.Exit(3)
-	}
-	return a
-}
+func (wd *world) alive() bool { return wd.pkgGoroutines()-wd.base > 0 }
 
 // ---------------------------------------------------------------- step mode
 
@@ -588,7 +603,7 @@ func (wd *world) step(a act) {
 			return
 		}
 		c.status = "parked"
-		wd.x.Issue(c.id, func() interface{} { return wd.submit(c) })
+		wd.x.Issue(c.id, func() interface{} { return wd.callerSubmit(c) })
 	case "end":
 		if a.C == 0 {
 			a.C = wd.atGate()
@@ -637,7 +652,7 @@ func (wd *world) settle() {
 }
 
 func (wd *world) quiet(final bool) {
-	wd.log.add(tr.E{"ev": "quiet", "alive": wd.alive(), "term": atomic.LoadInt32(&wd.term) == 1, "final": final})
+	wd.log.add(tr.E{"ev": "quiet", "alive": wd.alive(), "term": wd.terminated(), "final": final})
 }
 
 // drain ends the plan: consumers started, every gate opened, executor stopped - so that the last
@@ -719,8 +734,22 @@ func randPlan(rng *rand.Rand, nl, n int) []act {
 	if rng.Intn(6) == 0 {
 		out = append(out, act{Op: "wait"}) // the owner waits for termination before anything else
 	}
-	if rng.Intn(10) < 8 {
+	// openings: consumers first (usual), nothing, Stop before Run, calls accepted and then Stop
+	// before Run, Stop right after Run
+	switch x := rng.Intn(20); {
+	case x < 11:
 		out = append(out, act{Op: "run"})
+	case x < 13:
+	case x < 15:
+		out = append(out, act{Op: "stopi"})
+	case x < 18:
+		for n := 1 + rng.Intn(3); n > 0; n-- {
+			out = append(out, act{Op: "inv", C: next, H: pool[rng.Intn(len(pool))], Fail: rng.Intn(3) == 0})
+			next++
+		}
+		out = append(out, act{Op: "stopi"}, act{Op: "run"})
+	default:
+		out = append(out, act{Op: "run"}, act{Op: "stopi"})
 	}
 	for i := 0; i < n; i++ {
 		switch x := rng.Intn(106); {
@@ -855,7 +884,7 @@ func runStress(w *tr.W, rng *rand.Rand, kind string, nl, qopt, threads, per int,
 						c.ctx.cancel()
 					}()
 				}
-				r := wd.submit(c)
+				r := wd.callerSubmit(c)
 				wd.log.add(tr.E{"ev": "ret", "c": id, "r": r})
 				if stopMode == 1 && int(atomic.AddInt32(&done, 1)) == stopAfter {
 					go wd.doStop(0)
@@ -961,7 +990,7 @@ func runLife(w *tr.W, rng *rand.Rand, kind string, nl, qopt, family int) {
 				if !ok {
 					tr.Fatal("hash classes exhausted")
 				}
-				r := wd.submit(c)
+				r := wd.callerSubmit(c)
 				wd.log.add(tr.E{"ev": "ret", "c": id, "r": r})
 			}
 		})
@@ -1075,7 +1104,11 @@ func main() {
 	// life-cycle rounds first: every family on every kind of executor in turn
 	for i := 0; i < *nlife; i++ {
 		kind := kinds4[i%4]
-		runLife(w, rng, kind, lanes(kind), qopt(kind), (i/4)%lifeFamilies)
+		fam := (i / 4) % lifeFamilies
+		if i >= 4*lifeFamilies { // second pass: more of Stop before Run with calls accepted, Stop right after Run
+			fam = []int{1, 11, 9, 12, 1, 10, 4, 11, 6, 1, 9, 5, 7, 12}[(i/4)%lifeFamilies]
+		}
+		runLife(w, rng, kind, lanes(kind), qopt(kind), fam)
 	}
 	if *plans != "" {
 		files, _ := filepath.Glob(filepath.Join(*plans, "*.ndjson"))
